@@ -214,9 +214,11 @@ class Gen:
                                     "sdecml:0:%d:%s" % (BIG, X1), "memlimit:%d" % SMALL, "dcode", "memlimit:%d" % BIG, "dcont",
                                     "sdecml:0:1:%s" % xz(L2a, 800, 1, 1), "dcode", "memlimit:%d" % BIG, "dcont"])
         add("adec-memlimit-retry", ["adecml:0:%d:%s" % (SMALL, X1), "dcode", "memlimit:%d" % SMALL2, "dcont", "memlimit:%d" % BIG, "dcont",
-                                    # (no lzma_memlimit_set between a RE-init of the auto decoder and its first lzma_code: see
-                                    # findings/C10-auto-decoder-memconfig-stale-subdecoder.md, an assert outside C10's statement)
-                                    "adecml:0:%d:%s" % (SMALL, X2), "dcode", "memlimit:1", "memlimit:%d" % SMALL2, "dcont", "adecml:8:%d:%s" % (BIG, X2), "dcode",
+                                    # lzma_memlimit_set between a RE-init of the auto decoder and its first lzma_code: must answer for the NEW
+                                    # session (limit = init limit, usage = base), not for the previous file's sub-decoder (fixed in 1344d82)
+                                    "adecml:0:%d:%s" % (SMALL, X2), "memlimit:1", "memlimit:%d" % SMALL2, "dcode", "memlimit:1", "memlimit:%d" % SMALL2, "dcont",
+                                    "adecml:8:%d:%s" % (BIG, X2), "memlimit:%d" % SMALL, "dcode", "memlimit:%d" % BIG, "dcont",
+                                    "adecml:8:%d:%s" % (BIG, X2), "dcode", "adecml:0:%d:%s" % (SMALL, X1), "memlimit:%d" % BIG, "dcode",
                                     "adecml:0:%d:%s" % (SMALL, X1), "dcode"])
         add("block-init-options-error", ["sdec:0:badxz/%s" % D4, "dcode", "sdec:0:badxz/%s+%s" % (L2a, D4), "dcode", "adec:0:badxz/%s+%s" % (X86o, D1), "dcode",
                                          "sdecml:0:%d:badxz/%s+%s+%s" % (SMALL, D1, L2a, L2a), "dcode", "sbufdec:0:badxz/%s+%s" % (D4, D1),
@@ -321,8 +323,10 @@ class Gen:
                     else:
                         # memory limit too small at Block init, then end / re-init / lzma_memlimit_set + retry
                         dec = rng.choice(("sdecml", "adecml"))
-                        steps += ["%s:%d:%d:%s" % (dec, rng.choice((0, 4, 8)), rng.choice((1, SMALL, SMALL2)), xz(ch, 600, rng.randrange(1, 3), 1)),
-                                  rng.choice(("dcode", "dstop"))]
+                        steps += ["%s:%d:%d:%s" % (dec, rng.choice((0, 4, 8)), rng.choice((1, SMALL, SMALL2)), xz(ch, 600, rng.randrange(1, 3), 1))]
+                        if rng.random() < .3:
+                            steps += ["memlimit:%d" % rng.choice((1, SMALL, SMALL2, BIG))]      # before the first lzma_code, also after a re-init
+                        steps += [rng.choice(("dcode", "dstop"))]
                         for _ in range(rng.randrange(0, 4)):
                             steps += ["memlimit:%d" % rng.choice((1, SMALL, SMALL2)), "dcont"]
                         if rng.random() < .7:
